@@ -80,7 +80,8 @@ SrvCasesSmall == {[side |-> "server", lines |-> p \o <<L("a", "STARTTLS")>> \o s
 \*   TAGGED `X9 OK done` (unknown tag)   BYE `* BYE bye`   PREAUTH `* PREAUTH hi`
 Greetings == {"GOK", "GOKC", "GPREAUTH", "GBYE"}
 \* (capabilities announced in plaintext between the client's STARTTLS and its OK are plaintext knowledge as well)
-CliPre == {<<>>, <<L("*", "EXISTS")>>, <<L("*", "CAPS")>>, <<L("*", "OKCAPS")>>}
+\* CONT `+ <base64>`: a continuation request nobody asked for, written in plaintext
+CliPre == {<<>>, <<L("*", "EXISTS")>>, <<L("*", "CAPS")>>, <<L("*", "OKCAPS")>>, <<L("+", "CONT")>>}
 CliSuffix == {<<>>, <<L("*", "OKCAPS")>>, <<L("*", "CAPS")>>, <<L("*", "EXISTS")>>, <<L("*", "EXPUNGE")>>,
               <<L("X", "TAGGED")>>, <<L("*", "BYE")>>, <<L("*", "PREAUTH")>>,
               <<L("*", "CAPS"), L("*", "EXISTS")>>}
@@ -96,6 +97,8 @@ CliCasesSmall == {[side |-> "client", lines |-> <<L("*", g)>> \o p \o <<L("T", "
                 s \in {<<>>, <<L("*", "EXISTS")>>}}
              \cup {[side |-> "client", lines |-> <<L("*", g), L("*", c), L("T", "TOK")>> \o s] :
                 g \in {"GOK", "GOKC"}, c \in {"CAPS", "OKCAPS"}, s \in {<<>>, <<L("*", "EXISTS")>>}}
+             \cup {[side |-> "client", lines |-> <<L("*", g), L("+", "CONT"), L("T", "TOK")>> \o s] :
+                g \in {"GOK", "GOKC"}, s \in {<<>>, <<L("*", "EXISTS")>>}}
              \cup {[side |-> "client", lines |-> <<L("*", g), L("T", "TOKC")>> \o s] :
                 g \in {"GOK", "GOKC"}, s \in {<<>>, <<L("*", "EXISTS")>>}}
 
@@ -138,6 +141,9 @@ CApply(c, li, k) ==
   ELSE
     CASE k \in Toks                 -> [c EXCEPT !.upgraded = TRUE, !.caps = {}]   \* capabilities are forgotten
       [] k \in {"CAPS", "OKCAPS"}   -> [c EXCEPT !.caps = EvilCaps]
+      \* a continuation request without a command that waits for one: a protocol error, the client gives up (what must
+      \* not happen is that it is kept for a command issued inside TLS - checked by the harness with an IDLE there)
+      [] k = "CONT"                 -> [c EXCEPT !.dead = TRUE]
       [] k \in {"EXISTS", "EXPUNGE"} -> [c EXCEPT !.handler = Append(@, li)]
       [] OTHER                      -> c
 
